@@ -9,6 +9,7 @@ class ClassInfo:
         self.name, self.module, self.node, self.bases = name, module, node, bases
         self.methods = {}      # name -> FunctionDef
         self.getters = {}      # property name -> FunctionDef
+        self.cached = {}       # functools.cached_property name -> FunctionDef (value kept in the instance __dict__ under that name)
         self.setters = {}
         self.classmethods = set()
         self.staticmethods = set()
